@@ -10,6 +10,8 @@ import (
 	"math/rand/v2"
 	"sync"
 	"sync/atomic"
+
+	"cuelang.org/go/internal/simhook"
 )
 
 // Work manages a set of work items to be executed in parallel, at most once each.
@@ -65,6 +67,7 @@ func (w *Work[T]) Do(n int, f func(item T)) {
 	w.wait.L = &w.mu
 
 	for range n - 1 {
+		simhook.Spawn("par.Work.Do")
 		go w.runner()
 	}
 	w.runner()
@@ -74,6 +77,7 @@ func (w *Work[T]) Do(n int, f func(item T)) {
 // and all the runners are waiting for work.
 // (Then all the runners return.)
 func (w *Work[T]) runner() {
+	simhook.Started("par.Work.Do", 0)
 	for {
 		// Wait for something to do.
 		w.mu.Lock()
@@ -87,6 +91,7 @@ func (w *Work[T]) runner() {
 			}
 			w.wait.Wait()
 			w.waiting--
+			simhook.Woken("par.Work.runner", &w.mu)
 		}
 
 		// Pick something to do at random,
@@ -94,6 +99,7 @@ func (w *Work[T]) runner() {
 		// in case items added at about the same time
 		// are most likely to contend.
 		i := rand.IntN(len(w.todo))
+		i = simhook.Pick("par.Work.runner", i, len(w.todo))
 		item := w.todo[i]
 		w.todo[i] = w.todo[len(w.todo)-1]
 		w.todo = w.todo[:len(w.todo)-1]
@@ -155,12 +161,14 @@ func (c *Cache[K, V]) Do(key K, f func() V) V {
 	}
 	e := entryIface.(*cacheEntry[V])
 	if !e.done.Load() {
+		simhook.Acquire("par.Cache.Do", e)
 		e.mu.Lock()
 		if !e.done.Load() {
 			e.result = f()
 			e.done.Store(true)
 		}
 		e.mu.Unlock()
+		simhook.Release("par.Cache.Do", e)
 	}
 	return e.result
 }
